@@ -206,7 +206,7 @@ def run(ctx):
 
 MANIFEST = {
     "category": "other",
-    "technique": "decision table of update_transports (abstract interpretation, order domain) + who-may-write scan + dominance/provenance rules on the actor's insert sites",
+    "technique": "decision table of update_transports (abstract interpretation, order domain) + who-may-write scan + dominance/provenance rules on the actor's insert sites; component-wise lexicographic evaluation of timestamp comparisons",
     "text": "Static: the last-write-wins table is enumerated exhaustively; every path that stores a node record is checked for verification and for going through that comparison. Decides the newest-authentic-wins structure; signature crypto and SQL are not decided.",
     "note": "Trusted: rustc MIR, driver, rule engine; HybridTimestamp ordering (derive(Ord)).",
 }
